@@ -187,4 +187,23 @@ def cbcEncryptN (n : Nat) (E : Bytes → Bytes) (iv : Bytes) (pt : Bytes) : Byte
 def ecbEncryptN (n : Nat) (E : Bytes → Bytes) (pt : Bytes) : Bytes :=
   ((chunksN n pt (pt.length + 1)).map E).flatten
 
+/-! ### CMAC (NIST SP 800-38B / RFC 4493) over a 16-byte block function -/
+
+/-- doubling in GF(2^128): shift left, reduce with 0x87 -/
+def cmacDbl (b : Bytes) : Bytes :=
+  let n := beNat b
+  let sh := (n * 2) % 2 ^ 128
+  natToBytes (if n ≥ 2 ^ 127 then sh ^^^ 0x87 else sh) 16
+
+def cmac (E : Bytes → Bytes) (msg : Bytes) : Bytes :=
+  let k1 := cmacDbl (E (List.replicate 16 0))
+  let k2 := cmacDbl k1
+  let nblk := if msg.isEmpty then 1 else (msg.length + 15) / 16
+  let complete : Bool := !msg.isEmpty && msg.length % 16 == 0
+  let body := msg.take ((nblk - 1) * 16)
+  let lastRaw := msg.drop ((nblk - 1) * 16)
+  let last := if complete then xorB lastRaw k1 else xorB (lastRaw ++ [0x80] ++ List.replicate (15 - lastRaw.length) 0) k2
+  let x := (chunksN 16 body (body.length + 1)).foldl (fun x blk => E (xorB x blk)) (List.replicate 16 0)
+  E (xorB x last)
+
 end TpmVerif.Crypto
